@@ -225,7 +225,9 @@ class Solver(ABC):
 
         initial_values = self._unbatch_results(padded_batched_initial_values)
 
-        return initial_values
+        # Value estimates are floating point even when the problem's initial_value
+        # heuristic is computed from (integer) state vectors
+        return initial_values.astype(jnp.result_type(float))
 
     def _calculate_initial_value_state_batch(
         self, carry, state_batch: StateBatch
